@@ -63,6 +63,23 @@ def build_encoding(ob, work):
     rc, out, err, _ = sh(cmd, timeout=300)
     if rc != 0:
         raise Unsupported('clang failed: ' + err[-2000:])
+    # further translation units of the repository (e.g. a bucket allocator), compiled separately and linked at IR level so that
+    # file-static names cannot clash
+    extra = ob.get('extra_srcs', [])
+    if extra:
+        parts = [ll]
+        for i, e in enumerate(extra):
+            esrc = e if os.path.isabs(e) else os.path.join(REPO, e)
+            ell = os.path.join(work, '%s.x%d.ll' % (ob['name'], i))
+            rc, out, err, _ = sh([CLANG] + BASE_CFLAGS + ob.get('cflags', []) + ['-S', '-emit-llvm', esrc, '-o', ell], timeout=300)
+            if rc != 0:
+                raise Unsupported('clang failed on %s: %s' % (e, err[-2000:]))
+            parts.append(ell)
+        linked = os.path.join(work, ob['name'] + '.linked.ll')
+        rc, out, err, _ = sh(['llvm-link-14', '-S', '-o', linked] + parts, timeout=300)
+        if rc != 0:
+            raise Unsupported('llvm-link failed: ' + err[-2000:])
+        ll = linked
     txt, info = irgen.generate(ob, open(ll).read())
     cfile = os.path.join(work, ob['name'] + '.c')
     open(cfile, 'w').write(txt)
